@@ -1468,6 +1468,10 @@ def stat_imode(eng, world, args, kwargs, node):
 
 def re_call(kind):
     def impl(eng, world, args, kwargs, node):
+        if len(args) > 2 or kwargs:
+            fl = eng.force(kwargs.get("flags", args[2] if len(args) > 2 else VInt(0)))
+            if not (isinstance(fl, VInt) and is_conc(fl.z) and fl.z == 0):
+                raise OutOfSubset("re.%s with flags (only flag-less matching is modelled)" % kind)
         pat = eng.force(args[0])
         subj = eng.force(args[1])
         if not (isinstance(pat, VStr) and is_conc(pat.z)):
@@ -1546,6 +1550,8 @@ def match_group(eng, pat, subj, kind, i):
 def re_sub(eng, world, args, kwargs, node):
     """re.sub(<char-class>+, repl, s): the result contains no character of the class when repl has none
     (assumed contract of re.sub for the literal patterns used in the repository)."""
+    if len(args) > 3 or kwargs:
+        raise OutOfSubset("re.sub with count/flags (only the three-argument form is modelled)")
     pat, repl, subj = [eng.force(a) for a in args[:3]]
     if isinstance(pat, VStr) and is_conc(pat.z) and pat.z.isalnum() and isinstance(repl, VStr) and isinstance(subj, VStr):
         eng.assumptions_used.add("re.sub(<alphanumeric literal>, repl, s): s with the occurrences of the literal replaced by repl (repl without backslashes)")
@@ -1798,6 +1804,8 @@ def typing_cast(eng, world, args, kwargs, node):
 # ---- models used by the ZIP contracts (C16) ------------------------------------------------------------
 @ext("re.compile")
 def re_compile(eng, world, args, kwargs, node):
+    if len(args) > 1 or kwargs:
+        raise OutOfSubset("re.compile with flags (only flag-less patterns are modelled)")
     pat = eng.force(args[0])
     o = VOpaque("pattern", z3.Const(eng.fresh_name("pattern"), U))
     f = sfun("re_pattern_search", STR, STR, BOOL)
